@@ -156,6 +156,50 @@ func (w *weaver) rewriteCall(call *ast.CallExpr) ast.Expr {
 	return nil
 }
 
+// rewriteMethodValue turns the method values of the sync primitives (mu.Unlock used as a func value)
+// into closures over the simulator's versions; without it the real method would run behind the
+// simulator's back and its lock table would go stale.
+func (w *weaver) rewriteMethodValue(sel *ast.SelectorExpr) ast.Expr {
+	s := w.info.Selections[sel]
+	if s == nil || s.Kind() != types.MethodVal {
+		return nil
+	}
+	f, ok := s.Obj().(*types.Func)
+	if !ok {
+		return nil
+	}
+	switch f.FullName() {
+	case "(*sync.Mutex).Lock":
+		w.used = true
+		w.stats["methodvalue"]++
+		return simcall("LockFn", w.addr(sel.X), w.site("lock"))
+	case "(*sync.Mutex).Unlock":
+		w.used = true
+		w.stats["methodvalue"]++
+		return simcall("UnlockFn", w.addr(sel.X))
+	case "(*sync.RWMutex).Lock":
+		w.used = true
+		w.stats["methodvalue"]++
+		return simcall("WLockFn", w.addr(sel.X), w.site("lock"))
+	case "(*sync.RWMutex).Unlock":
+		w.used = true
+		w.stats["methodvalue"]++
+		return simcall("WUnlockFn", w.addr(sel.X))
+	case "(*sync.RWMutex).RLock":
+		w.used = true
+		w.stats["methodvalue"]++
+		return simcall("RLockFn", w.addr(sel.X), w.site("rlock"))
+	case "(*sync.RWMutex).RUnlock":
+		w.used = true
+		w.stats["methodvalue"]++
+		return simcall("RUnlockFn", w.addr(sel.X))
+	case "(*sync.Cond).Wait", "(*sync.Cond).Signal", "(*sync.Cond).Broadcast", "(*sync.Mutex).TryLock":
+		fmt.Fprintf(os.Stderr, "simweave: unsupported method value %s in %s\n", f.FullName(), w.fn)
+		os.Exit(3)
+	}
+	return nil
+}
+
 func (w *weaver) tmpName(p string) *ast.Ident {
 	w.tmp++
 	return ast.NewIdent(fmt.Sprintf("_sim%s%d", p, w.tmp))
@@ -393,6 +437,14 @@ func (w *weaver) weaveFile(f *ast.File) bool {
 				}
 			case *ast.GoStmt:
 				c.Replace(w.rewriteGo(n))
+			case *ast.SelectorExpr:
+				// a method value (x.Unlock handed around as a func): calls are handled above
+				if call, ok := c.Parent().(*ast.CallExpr); ok && call.Fun == n {
+					break
+				}
+				if r := w.rewriteMethodValue(n); r != nil {
+					c.Replace(r)
+				}
 			case *ast.BlockStmt:
 				if *yieldAll {
 					n.List = w.yieldStmts(n.List)
